@@ -173,6 +173,48 @@ func runC02(c *Ctx) {
 			}
 		}
 		rec(maxN)
+		// the same vectors grown rule by rule on one enforcer that is never cleared or reloaded (rules are taken
+		// away with RemovePolicies): a decision after the i-th AddPolicy is the decision of the prefix vector,
+		// whatever the enforcer answered while the policy was shorter
+		inc, err := casbin.NewEnforcer(c02Model(k.expr))
+		if err != nil {
+			panic(err)
+		}
+		var recInc func()
+		recInc = func() {
+			if len(vec) == 3 {
+				if cur, _ := inc.GetPolicy(); len(cur) > 0 {
+					_, _ = inc.RemovePolicies(cur)
+				}
+				for i, cell := range vec {
+					_, _ = inc.AddPolicy(cellRule(cell, i))
+					names := make([]string, i+1)
+					for j := 0; j <= i; j++ {
+						names[j] = cellNames[vec[j]]
+					}
+					ok, explain, err := inc.EnforceEx("alice", "x", "read")
+					idx := -1
+					if len(explain) > 0 {
+						fmt.Sscanf(explain[1], "o%d", &idx)
+					}
+					obs := fmt.Sprintf("%v %d", ok, idx)
+					if err != nil {
+						obs = "err"
+					}
+					c.W.Op(fmt.Sprintf("enfvec %s %s", k.name, strings.Join(names, "")), obs)
+					c.Evals++
+					c.Count("incremental_vector_calls", 1)
+				}
+				return
+			}
+			for cell := 0; cell < 6; cell++ {
+				vec = append(vec, cell)
+				recInc()
+				vec = vec[:len(vec)-1]
+			}
+		}
+		vec = vec[:0]
+		recInc()
 	}
 
 	// n = 0: the branch enforce() takes on an empty policy, for a request that does not / does satisfy the
